@@ -1080,9 +1080,12 @@ class CodeGenerator(StructuredCodeGenerator):
                 eliminate_self_dependencies, expand_IfThenElse,
                 isolate_function_arguments, isolate_function_calls)
             ast = eliminate_self_dependencies(ast)
+            # Conditional expressions are expanded before calls are isolated,
+            # so that a call inside a branch ends up in a statement that is
+            # only executed if that branch is taken.
+            ast = expand_IfThenElse(ast)
             ast = isolate_function_arguments(ast)
             ast = isolate_function_calls(ast)
-            ast = expand_IfThenElse(ast)
 
             if print_ast:
                 print(ast)
